@@ -66,6 +66,15 @@ fn gen_spec(rng: &mut Rng) -> CmdSpec {
     if rng.chance(1, 4) {
         c.set(Setting::ArgsOverrideSelf);
     }
+    // a (multiple) group over some of the arguments: what an override removes must also be gone
+    // from the groups it is a member of
+    if rng.coin() {
+        let mut members: Vec<String> = c.args.iter().filter(|_| rng.coin()).map(|a| a.id.clone()).collect();
+        if members.is_empty() {
+            members.push(c.args[0].id.clone());
+        }
+        c.groups.push(GroupSpec { id: "g0".into(), members, multiple: true, ..Default::default() });
+    }
     c
 }
 
@@ -284,6 +293,22 @@ pub fn case(seed: u64, st: &mut Stats) {
                             st.violation("c07:subcommand-chain-lost", ctx());
                             break;
                         }
+                    }
+                }
+                if let Some(g) = spec.groups.first() {
+                    let mut want: Vec<String> = spec.args.iter().enumerate().filter(|(ai, a)| g.members.contains(&a.id) && state.contains_key(ai)).map(|(_, a)| a.id.clone()).collect();
+                    want.sort();
+                    let mut have: Vec<String> = m.try_get_many::<clap::Id>("g0").ok().flatten().map(|v| v.map(|x| x.as_str().to_string()).collect()).unwrap_or_default();
+                    have.sort();
+                    have.dedup();
+                    let contains = m.try_contains_id("g0").ok();
+                    st.count(if want.is_empty() { "group.absent" } else { "group.present" });
+                    if have != want || contains != Some(!want.is_empty()) {
+                        st.violation("c07:group-members-after-fold", format!("g0: members {:?} (contains_id {:?}), expected {:?} | {}", have, contains, want, ctx()));
+                        continue;
+                    }
+                    if seq.iter().any(|o| g.members.contains(&spec.args[o.arg].id) && !state.contains_key(&o.arg)) {
+                        st.count("group.member-removed-by-override");
                     }
                 }
                 for (ai, a) in spec.args.iter().enumerate() {
